@@ -479,4 +479,10 @@ void run_C01(void) {
     for (uint64_t rs = 0; rs <= 4; rs++)
       for (uint64_t as = 0; as <= 4; as++)
         for (int v = 0; v < 12; v++) svp_case(bN[ni], (int)((rs + as + ni) % NFAM), v & 1, (v >> 1) % 3 | (v >= 6 ? 4 : 0), rs, as, (unsigned)(rs + as) % 4, 100);
+  // many limbs
+  for (size_t ni = 0; ni < ARRAY_LEN(bN); ni++) {
+    static const uint64_t BIGS[][2] = {{9, 13}, {16, 8}, {12, 12}, {17, 17}, {33, 32}};
+    for (size_t q = 0; q < ARRAY_LEN(BIGS); q++)
+      for (int v = 0; v < 12; v++) svp_case(bN[ni], (int)((q + ni + (size_t)v) % NFAM), v & 1, (v >> 1) % 3 | (v >= 6 ? 4 : 0), BIGS[q][0], BIGS[q][1], (unsigned)q % 4, 101);
+  }
 }
